@@ -38,6 +38,9 @@ func ObjName(o types.Object) string {
 // short name or end with the method name after a dot for interface methods:
 // matching is exact on ObjName.
 func (f *Fn) IsCallTo(n ast.Node, names ...string) *ast.CallExpr {
+	for _, nm := range names {
+		Anchors.addName(nm)
+	}
 	e, ok := n.(ast.Expr)
 	if !ok {
 		return nil
@@ -201,6 +204,28 @@ func (f *Fn) MentionsField(root ast.Node, fld *types.Var) bool {
 // objects (so renaming a local consistently keeps them equal and a shadowing
 // variable makes them differ).
 func (f *Fn) SameExpr(a, b ast.Expr) bool {
+	a, b = ast.Unparen(a), ast.Unparen(b)
+	if a == nil || b == nil {
+		return a == b
+	}
+	if f.sameExpr(a, b) {
+		return true
+	}
+	// see through temporaries: k := ip.String() makes k and ip.String() the same value
+	if f.matchDepth > 8 {
+		return false
+	}
+	ra, rb := f.Resolve(a), f.Resolve(b)
+	if ra != a || rb != b {
+		f.matchDepth++
+		ok := f.sameExpr(ra, rb)
+		f.matchDepth--
+		return ok
+	}
+	return false
+}
+
+func (f *Fn) sameExpr(a, b ast.Expr) bool {
 	a, b = ast.Unparen(a), ast.Unparen(b)
 	if a == nil || b == nil {
 		return a == b
@@ -383,18 +408,24 @@ func (f *Fn) IsConstBool(e ast.Expr, v bool) bool {
 // (straight-line code, including an if-statement's init), or else the unique
 // assignment in the whole function. idx is the position in a tuple assignment.
 func (g *Graph) DefOf(id *ast.Ident, at Site) (rhs ast.Expr, idx int) {
+	rhs, idx, _ = g.defOf(id, at)
+	return
+}
+
+func (g *Graph) defOf(id *ast.Ident, at Site) (rhs ast.Expr, idx int, tuple bool) {
 	f := g.Fn
 	obj := f.ObjOf(id)
 	if obj == nil {
-		return nil, 0
+		return nil, 0, false
 	}
 	if at.B != nil {
 		// reaching definitions by backward search: on every backward path the nearest
 		// assignment; decided only if all paths agree on one assignment.
 		type res struct {
-			rhs ast.Expr
-			idx int
-			n   ast.Node
+			rhs   ast.Expr
+			idx   int
+			tuple bool
+			n     ast.Node
 		}
 		var defs []res
 		undefined := false
@@ -409,14 +440,14 @@ func (g *Graph) DefOf(id *ast.Ident, at Site) (rhs ast.Expr, idx int) {
 				nd := b.Nodes[i]
 				if nd.End() > id.Pos() && b == at.B && i == at.I {
 					// the node containing the use: only an if/switch init placed before it counts
-					if r, k, ok := f.assignTo(nd, obj); ok && nd.End() <= id.Pos() {
-						defs = append(defs, res{r, k, nd})
+					if r, k, tp, ok := f.assignTo(nd, obj); ok && nd.End() <= id.Pos() {
+						defs = append(defs, res{r, k, tp, nd})
 						return
 					}
 					continue
 				}
-				if r, k, ok := f.assignTo(nd, obj); ok {
-					defs = append(defs, res{r, k, nd})
+				if r, k, tp, ok := f.assignTo(nd, obj); ok {
+					defs = append(defs, res{r, k, tp, nd})
 					return
 				}
 			}
@@ -441,31 +472,35 @@ func (g *Graph) DefOf(id *ast.Ident, at Site) (rhs ast.Expr, idx int) {
 				}
 			}
 			if same {
-				return defs[0].rhs, defs[0].idx
+				return defs[0].rhs, defs[0].idx, defs[0].tuple
 			}
+			return nil, 0, false
 		}
 	}
 	var found ast.Expr
 	var fidx, n int
+	var ftuple bool
 	ast.Inspect(f.Body, func(nd ast.Node) bool {
 		if nd == nil {
 			return true
 		}
-		if r, k, ok := f.assignTo(nd, obj); ok {
+		if r, k, tp, ok := f.assignTo(nd, obj); ok {
 			n++
-			found, fidx = r, k
+			found, fidx, ftuple = r, k, tp
 		}
 		return true
 	})
 	if n == 1 {
-		return found, fidx
+		return found, fidx, ftuple
 	}
-	return nil, 0
+	return nil, 0, false
 }
 
 // assignTo reports whether node n is an assignment/definition whose left side
-// includes obj, and returns the corresponding right-hand side.
-func (f *Fn) assignTo(n ast.Node, obj types.Object) (ast.Expr, int, bool) {
+// includes obj, and returns the corresponding right-hand side (nil when the new
+// value is not a plain expression: `x += e`, `x++`, `var x T`); tuple says that
+// the right-hand side is one multi-valued expression and idx selects the result.
+func (f *Fn) assignTo(n ast.Node, obj types.Object) (ast.Expr, int, bool, bool) {
 	switch s := n.(type) {
 	case *ast.AssignStmt:
 		for i, l := range s.Lhs {
@@ -473,12 +508,19 @@ func (f *Fn) assignTo(n ast.Node, obj types.Object) (ast.Expr, int, bool) {
 			if !ok || f.ObjOf(id) != obj {
 				continue
 			}
+			if s.Tok != token.ASSIGN && s.Tok != token.DEFINE {
+				return nil, 0, false, true
+			}
 			if len(s.Rhs) == len(s.Lhs) {
-				return s.Rhs[i], 0, true
+				return s.Rhs[i], 0, false, true
 			}
 			if len(s.Rhs) == 1 {
-				return s.Rhs[0], i, true
+				return s.Rhs[0], i, true, true
 			}
+		}
+	case *ast.IncDecStmt:
+		if id, ok := s.X.(*ast.Ident); ok && f.ObjOf(id) == obj {
+			return nil, 0, false, true
 		}
 	case *ast.ValueSpec:
 		for i, id := range s.Names {
@@ -486,15 +528,134 @@ func (f *Fn) assignTo(n ast.Node, obj types.Object) (ast.Expr, int, bool) {
 				continue
 			}
 			if len(s.Values) == len(s.Names) {
-				return s.Values[i], 0, true
+				return s.Values[i], 0, false, true
 			}
 			if len(s.Values) == 1 {
-				return s.Values[0], i, true
+				return s.Values[0], i, true, true
 			}
-			return nil, 0, true
+			return nil, 0, false, true
+		}
+	case *ast.RangeStmt:
+		for _, e := range []ast.Expr{s.Key, s.Value} {
+			if id, ok := e.(*ast.Ident); ok && f.ObjOf(id) == obj {
+				return nil, 0, false, true
+			}
 		}
 	}
-	return nil, 0, false
+	return nil, 0, false, false
+}
+
+// LocalDef returns the expression that defines the local variable used at id
+// when that definition is unambiguous: the unique reaching definition at the use
+// (or the unique assignment in the function) and a one-to-one assignment
+// (`x := E`, `x = E`, `var x = E`), not a tuple. Parameters, range variables and
+// variables with several reaching definitions have no LocalDef. The matcher uses
+// it to see through temporaries: `k := ip.String(); m[k]` matches `m[IP.String()]`.
+func (f *Fn) LocalDef(id *ast.Ident) ast.Expr {
+	if f.defCache == nil {
+		f.defCache = map[*ast.Ident]ast.Expr{}
+	}
+	if r, ok := f.defCache[id]; ok {
+		return r
+	}
+	f.defCache[id] = nil
+	v, ok := f.ObjOf(id).(*types.Var)
+	if !ok || v.IsField() || v.Pkg() == nil || v.Parent() == v.Pkg().Scope() {
+		return nil
+	}
+	if f.Body == nil || id.Pos() < f.Body.Pos() || id.End() > f.Body.End() {
+		return nil
+	}
+	if f.assignedInLit(v) {
+		return nil
+	}
+	g := f.Graph()
+	site := g.FactSite(id)
+	rhs, idx, tuple := g.defOf(id, site)
+	if rhs == nil || tuple || idx != 0 {
+		return nil
+	}
+	// a definition that mentions the variable itself (x = x + 1) is not a definition to see through
+	if f.Mentions(rhs, v) {
+		return nil
+	}
+	f.defCache[id] = rhs
+	return rhs
+}
+
+// assignedInLit reports whether a function literal inside f assigns to v (the
+// reaching-definition search does not follow calls of closures).
+func (f *Fn) assignedInLit(v types.Object) bool {
+	if f.litAssigns == nil {
+		f.litAssigns = map[types.Object]bool{}
+		var inLit func(n ast.Node, lit bool)
+		inLit = func(root ast.Node, lit bool) {
+			ast.Inspect(root, func(n ast.Node) bool {
+				if n == nil {
+					return true
+				}
+				if fl, ok := n.(*ast.FuncLit); ok && n != root {
+					inLit(fl.Body, true)
+					return false
+				}
+				if !lit {
+					return true
+				}
+				mark := func(e ast.Expr) {
+					if id, ok := e.(*ast.Ident); ok {
+						if o := f.ObjOf(id); o != nil {
+							f.litAssigns[o] = true
+						}
+					}
+				}
+				switch s := n.(type) {
+				case *ast.AssignStmt:
+					if s.Tok != token.DEFINE {
+						for _, l := range s.Lhs {
+							mark(l)
+						}
+					}
+				case *ast.IncDecStmt:
+					mark(s.X)
+				case *ast.UnaryExpr:
+					if s.Op == token.AND {
+						mark(s.X)
+					}
+				}
+				return true
+			})
+		}
+		inLit(f.Body, false)
+	}
+	return f.litAssigns[v]
+}
+
+// Resolve follows an identifier through LocalDef (repeatedly) and strips
+// parentheses and type conversions; other expressions are returned unchanged.
+func (f *Fn) Resolve(e ast.Expr) ast.Expr {
+	for i := 0; i < 6 && e != nil; i++ {
+		e = ast.Unparen(e)
+		switch x := e.(type) {
+		case *ast.Ident:
+			d := f.LocalDef(x)
+			if d == nil {
+				return e
+			}
+			e = d
+			continue
+		case *ast.CallExpr:
+			if len(x.Args) == 1 {
+				if tv, ok := f.Info().Types[x.Fun]; ok && tv.IsType() {
+					if at, ok := f.Info().Types[x.Args[0]]; ok && at.Type != nil && types.Identical(at.Type, tv.Type) {
+						e = x.Args[0]
+						continue
+					}
+				}
+			}
+		}
+		return e
+	}
+	return e
 }
 
 // FactSite locates the block/index at which a fact's expression is evaluated.
